@@ -19,7 +19,10 @@ MANIFEST = {
                  'splitting of undeclared input into execution params, child-result message and the parent task), '
                  'structural facts of the source regenerated on every run, differential runs of the model against '
                  'the real functions and the real engine, and a monitor of the statement on the engine rows',
-    'text': 'Theorems (all inputs / all event orders incl. duplicate deliveries): the parent task takes exactly the '
+    'text': 'Theorems (all inputs / all event orders incl. duplicate deliveries): over all histories of the execution tree '
+            'including reruns of a task INSIDE a failed or cancelled sub-workflow (_recursive_rerun re-opens the execution '
+            'and its ancestors) an execution that is not completed is not accepted (running_child_not_accepted; tied by '
+            'the statement monitor running-child-accepted of the C07 stream, which generates such inner reruns); the parent task takes exactly the '
             'child final state and, on SUCCESS, the child output as result; exactly one result message per finished '
             'child and the completion logic of the task runs at most once (duplicate delivery is a no-op); every '
             'descendant records the root execution and the root namespace; get_workflow_environment_dict of any '
